@@ -90,4 +90,14 @@ def step (op : Op) (d : DStore) : DR :=
 
 def run (ops : List Op) (d : DStore) : DStore := ops.foldl (fun d o => (step o d).2) d
 
+/-- which lookups restrict themselves to the nodes carrying the caller's `GraphID` when the container stored under that id
+    also holds nodes of another graph (after a `GraphID` rewrite or a direct import; observed on the code by
+    `gen/storeflow.py`, `Gen.StoreFlow.dgidFiltered`): every inherited property-graph lookup does - `lift` runs the
+    shared-store method, which filters with `inG g`, on `sub d g`; `graph_exists`, the one query the backend overrides, too -
+    while the storage methods `extract_graph` (`extractGraph`) and `del_graph` (`delGraph`) take the whole container -/
+def modelFiltered : List (String × Bool) :=
+  [("_find_node", true), ("_find_all_nodes", true), ("node_exists", true), ("add_node", true),
+   ("get_all_nodes_by_class", true), ("get_all_nodes_by_class_and_type", true), ("check_node_unique", true),
+   ("graph_exists", true), ("extract_graph", false), ("del_graph", false)]
+
 end FimVerif.DStore
